@@ -41,15 +41,29 @@ func (m Meta) Set(key, value string) {
 	m[key] = value
 }
 
-// MarshalYAML quotes the texts that begin with a line break: printed in the
-// literal block style yaml.v3 picks for multi-line strings they lose their
-// first line break when read back.
+// needsQuotes reports whether yaml.v3 would print v in a way that does not read
+// back as v: a multi-line string goes into the literal block style, which loses
+// a leading line break (\n, U+2028, U+2029) and is refused with a leading tab.
+func needsQuotes(v string) bool {
+	if !strings.Contains(v, "\n") {
+		return false
+	}
+	for _, p := range []string{"\n", "\t", "\u2028", "\u2029"} {
+		if strings.HasPrefix(v, p) {
+			return true
+		}
+	}
+	return false
+}
+
+// MarshalYAML quotes the texts that yaml.v3 cannot print in the literal block
+// style it picks for multi-line strings.
 func (m Meta) MarshalYAML() (any, error) {
 	quote := false
 	keys := make([]string, 0, len(m))
 	for k, v := range m {
 		keys = append(keys, k)
-		quote = quote || strings.HasPrefix(v, "\n")
+		quote = quote || needsQuotes(v)
 	}
 	if !quote {
 		return map[string]string(m), nil
@@ -58,7 +72,7 @@ func (m Meta) MarshalYAML() (any, error) {
 	node := &yaml.Node{Kind: yaml.MappingNode, Tag: "!!map"}
 	for _, k := range keys {
 		value := &yaml.Node{Kind: yaml.ScalarNode, Tag: "!!str", Value: m[k]}
-		if strings.HasPrefix(m[k], "\n") {
+		if needsQuotes(m[k]) {
 			value.Style = yaml.DoubleQuotedStyle
 		}
 		node.Content = append(node.Content, &yaml.Node{Kind: yaml.ScalarNode, Tag: "!!str", Value: k}, value)
